@@ -118,6 +118,8 @@ type APIServer struct {
 	FailWrite       map[string]int  // verb -> remaining write failures
 	FailWriteName   map[string]int  // object name -> remaining failures of writes to an object of that name
 	FaultedNames    map[string]int  // object name -> write failures that fired
+	SlowList        map[string]int // resource -> remaining lists that take SlowListDur of simulated time to answer
+	SlowListDur     time.Duration
 	ConflictUpdates int             // remaining updates answered 409 Conflict (a concurrent writer got in between Get and Update)
 	SlowDeleteNames map[string]bool // ns/name of objects whose next delete leaves them terminating for a while (finalizers, dependents); the fake client does not pass DeleteOptions on, so the workload names the objects it deletes in the foreground
 	By              string          // attribution of writes arriving through the reactors
@@ -130,7 +132,7 @@ func okey(gvr schema.GroupVersionResource, ns, name string) string {
 }
 
 func NewAPIServer(e *Env, fc *fake.Cluster) *APIServer {
-	a := &APIServer{e: e, cur: map[string]*unstructured.Unstructured{}, nwatch: map[string]int{}, FailList: map[string]int{}, FailWrite: map[string]int{}, FailWriteName: map[string]int{}, SlowDeleteNames: map[string]bool{}, FaultedNames: map[string]int{}, By: "patcher"}
+	a := &APIServer{e: e, cur: map[string]*unstructured.Unstructured{}, nwatch: map[string]int{}, FailList: map[string]int{}, FailWrite: map[string]int{}, FailWriteName: map[string]int{}, SlowList: map[string]int{}, SlowListDur: 30 * time.Second, SlowDeleteNames: map[string]bool{}, FaultedNames: map[string]int{}, By: "patcher"}
 	dyn := fc.Client.Dynamic().(*fakedynamic.FakeDynamicClient)
 	dyn.PrependReactor("*", "*", a.react)
 	dyn.PrependWatchReactor("*", a.reactWatch)
@@ -340,6 +342,17 @@ func (a *APIServer) react(action ktesting.Action) (bool, runtime.Object, error) 
 	switch act := action.(type) {
 	case ktesting.ListActionImpl:
 		a.mu.Lock()
+		if a.SlowList[gvr.Resource] > 0 {
+			// an API server that answers this list slowly: the caller waits in simulated time (no lock of the
+			// model is held meanwhile)
+			a.SlowList[gvr.Resource]--
+			d := a.SlowListDur
+			a.mu.Unlock()
+			simrt.Count("fault:slow-list")
+			simrt.Logf("api FAULT list %s takes %v", gvr.Resource, d)
+			simrt.Sleep(d)
+			a.mu.Lock()
+		}
 		defer a.mu.Unlock()
 		if a.FailList[gvr.Resource] > 0 {
 			a.FailList[gvr.Resource]--
